@@ -192,7 +192,168 @@ func Ite(c, a, b T) T {
 	return app("ite", c, a, b)
 }
 
-func Sel(a, i T) T    { return app("select", a, i) }
+// curDefs maps names introduced by VC.define to their defining terms (set per VC; generation is single-threaded).
+var curDefs map[string]string
+
+// Sel builds (select a i), resolving reads over syntactically known store chains.
+func Sel(a, i T) T {
+	cur := a
+	for depth := 0; depth < 200; depth++ {
+		t := cur
+		if d, ok := curDefs[cur]; ok {
+			t = d
+		}
+		if !strings.HasPrefix(t, "(store ") {
+			break
+		}
+		args := splitArgs(t)
+		if len(args) != 3 {
+			break
+		}
+		if args[1] == i {
+			return args[2]
+		}
+		if distinctTerms(args[1], i) {
+			cur = args[0]
+			continue
+		}
+		break
+	}
+	return app("select", cur, i)
+}
+
+// splitArgs returns the arguments of an application "(f a b c)".
+func splitArgs(t string) []string {
+	if len(t) < 2 || t[0] != '(' {
+		return nil
+	}
+	s := t[1 : len(t)-1]
+	var parts []string
+	depth := 0
+	start := -1
+	for i := 0; i < len(s); i++ {
+		c := s[i]
+		switch c {
+		case '(':
+			if depth == 0 && start < 0 {
+				start = i
+			}
+			depth++
+		case ')':
+			depth--
+			if depth == 0 {
+				parts = append(parts, s[start:i+1])
+				start = -1
+			}
+		case ' ':
+			if depth == 0 && start >= 0 {
+				parts = append(parts, s[start:i])
+				start = -1
+			}
+		default:
+			if depth == 0 && start < 0 {
+				start = i
+			}
+		}
+	}
+	if start >= 0 {
+		parts = append(parts, s[start:])
+	}
+	if len(parts) == 0 {
+		return nil
+	}
+	return parts[1:]
+}
+
+func isLiteral(t string) bool { return strings.HasPrefix(t, "(_ bv") }
+
+func isFreshAlloc(t string) bool { return strings.HasPrefix(t, "a!") }
+
+// distinctTerms reports whether two reference/index terms are different in every model that satisfies
+// the facts the engine always emits (fresh allocations are non-nil and were not alive before; by-value
+// nested fields get injective, tagged derived references).
+func distinctTerms(x, y string) bool {
+	if x == y {
+		return false
+	}
+	if isLiteral(x) && isLiteral(y) {
+		return true
+	}
+	if isFreshAlloc(x) && isFreshAlloc(y) {
+		return true
+	}
+	if (isFreshAlloc(x) && (isLiteral(y) || strings.HasPrefix(y, "p_"))) || (isFreshAlloc(y) && (isLiteral(x) || strings.HasPrefix(x, "p_"))) {
+		return true
+	}
+	// a by-value part of an object that exists (parameter) or was allocated here is never a later/other fresh allocation
+	if isFreshAlloc(x) && strings.HasPrefix(y, "(gv_sub_") {
+		if r := subRoot(y); isFreshAlloc(r) || strings.HasPrefix(r, "p_") {
+			return true
+		}
+	}
+	if isFreshAlloc(y) && strings.HasPrefix(x, "(gv_sub_") {
+		if r := subRoot(x); isFreshAlloc(r) || strings.HasPrefix(r, "p_") {
+			return true
+		}
+	}
+	if strings.HasPrefix(x, "(gv_sub_") && strings.HasPrefix(y, "(gv_sub_") {
+		fx, fy := x[1:strings.IndexByte(x, ' ')], y[1:strings.IndexByte(y, ' ')]
+		if fx != fy {
+			return true
+		}
+		ax, ay := splitArgs(x), splitArgs(y)
+		if len(ax) == 1 && len(ay) == 1 {
+			return distinctTerms(ax[0], ay[0])
+		}
+		return false
+	}
+	// X + c1 vs X + c2, X vs X + c
+	bx, cx := splitAddConst(x)
+	by, cy := splitAddConst(y)
+	if bx == by && cx != cy {
+		return true
+	}
+	return false
+}
+
+func subRoot(t string) string {
+	for strings.HasPrefix(t, "(gv_sub_") {
+		a := splitArgs(t)
+		if len(a) != 1 {
+			return t
+		}
+		t = a[0]
+	}
+	return t
+}
+
+// splitAddConst decomposes "(bvadd X (_ bvC w))" into (X, C); other terms give (t, "0").
+func splitAddConst(t string) (string, string) {
+	if strings.HasPrefix(t, "(bvadd ") {
+		args := splitArgs(t)
+		if len(args) == 2 {
+			if isLiteral(args[1]) {
+				return args[0], litValue(args[1])
+			}
+			if isLiteral(args[0]) {
+				return args[1], litValue(args[0])
+			}
+		}
+	}
+	if isLiteral(t) {
+		return "", litValue(t)
+	}
+	return t, "0"
+}
+
+func litValue(t string) string {
+	// "(_ bvN w)" -> N
+	s := strings.TrimPrefix(t, "(_ bv")
+	if k := strings.IndexByte(s, ' '); k >= 0 {
+		return s[:k]
+	}
+	return s
+}
 func Sto(a, i, v T) T { return app("store", a, i, v) }
 
 // smtName makes an identifier safe as an SMT-LIB simple symbol.
